@@ -603,7 +603,8 @@ impl InternalTimeSyncController for Spy {
         self.inner.source_update(id, usable);
     }
     fn source_message(&mut self, id: ClockId, m: Self::SourceMessage) -> InternalStateUpdate<Self::ControllerMessage> {
-        let t = nh::time::timestamp_raw(kh::view_message(&m).last_update);
+        // the measurement's root delay field carries the harness's per-source sequence number
+        let t = nh::time::duration_raw(kh::view_message(&m).source_delay) as u64;
         self.log.lock().unwrap().push(Call::Message(id, t));
         let u = self.inner.source_message(id, m);
         if let Some(used) = &u.used_sources {
@@ -709,9 +710,14 @@ impl Property for C37 {
                                     // T1 = now - 2ms, T2 = T1 + off + 1ms, T3 = T2, T4 = now
                                     let t1 = now.wrapping_sub((2u64 << 32) / 1000);
                                     let t2 = t1.wrapping_add(off as u64).wrapping_add((1u64 << 32) / 1000);
-                                    c.handle_measurement(meas(ClockId::SYSTEM, *id, t1, t2));
-                                    c.handle_measurement(meas(*id, ClockId::SYSTEM, t2, now));
-                                    produced.push((*id, now));
+                                    let seq = produced.iter().filter(|p| p.0 == *id).count() as u64 + 1;
+                                    let mut m1 = meas(ClockId::SYSTEM, *id, t1, t2);
+                                    let mut m2 = meas(*id, ClockId::SYSTEM, t2, now);
+                                    m1.root_delay = nh::time::duration_from_raw(seq as i64);
+                                    m2.root_delay = nh::time::duration_from_raw(seq as i64);
+                                    c.handle_measurement(m1);
+                                    c.handle_measurement(m2);
+                                    produced.push((*id, seq));
                                     pending += 1;
                                 }
                             }
